@@ -89,6 +89,7 @@ type GenCfg struct {
 	SynData     bool // SYN segments may carry data
 	Short       bool // bias stream lengths down (many-connection lifecycle runs)
 	FinalTTC    bool // sometimes a last flush with separate data and closing cut-offs, closing later than data
+	Drift       bool // sometimes: many small buffered runs in front, multi-page segments behind them, under a page limit
 	Wide        bool // once in a while: more connections and buffered pages than the pools' first allocation holds
 }
 
@@ -207,7 +208,53 @@ func Generate(c *sim.Ctx, cfg GenCfg) *Plan {
 			maxT = t1 + 500
 		}
 	}
-	for ci := 0; ci < nconn && !wide; ci++ {
+	drift := !wide && cfg.Drift && c.Chance(25)
+	if drift {
+		// One direction under a page limit: small segments with holes between
+		// them are buffered first (each a run of its own), then segments of
+		// several pages arrive further on, also with holes. Every arrival has to
+		// make room for itself: releasing one run per arrival is not enough when
+		// the run released is one page and the arrival is three.
+		c.Fault("small_runs_in_front_of_multi_page_segments")
+		nconn = 1
+		p.ReorderPm, p.DropPm, p.DupPm, p.Rexmits = 0, 0, 0, 0
+		lim := 3 + c.Draw(8)
+		if c.Chance(700) {
+			p.PerConnLimit, p.TotalLimit = lim, 0
+		} else {
+			p.PerConnLimit, p.TotalLimit = 0, lim
+		}
+		nsmall, nbig := lim-1-c.Draw(2), 3+c.Draw(5)
+		d := &Dir{Idx: 0, Conn: 0, Side: 0}
+		d.Net = gopacket.NewFlow(layers.EndpointIPv4, []byte{10, 0, 0, 1}, []byte{10, 1, 0, 1})
+		d.Src, d.Dst = layers.TCPPort(1000), layers.TCPPort(80)
+		n := 100 + nsmall*40 + nbig*3*PageBytes + 100
+		fillStream(d, n)
+		d.ISN = pickISN(c, n)
+		d.End = 2
+		p.Dirs = append(p.Dirs, d)
+		t := int64(0)
+		add(t, EvPkt, &Pkt{Dir: 0, Seq: d.ISN, SYN: true, Kind: "syn"}, 0)
+		off := 100
+		for i := 0; i < nsmall; i++ {
+			t += 50_000
+			add(t, EvPkt, &Pkt{Dir: 0, Seq: d.ISN + 1 + uint32(off), Off: off, Len: 10, Kind: "data"}, 0)
+			off += 40
+		}
+		for i := 0; i < nbig; i++ {
+			t += 50_000
+			l := PageBytes + 1 + c.Draw(2*PageBytes-2)
+			add(t, EvPkt, &Pkt{Dir: 0, Seq: d.ISN + 1 + uint32(off), Off: off, Len: l, Kind: "data"}, 0)
+			off += 3 * PageBytes
+		}
+		if c.Chance(500) {
+			// the beginning arrives at last
+			t += 50_000
+			add(t, EvPkt, &Pkt{Dir: 0, Seq: d.ISN + 1, Off: 0, Len: 100, Kind: "data"}, 0)
+		}
+		maxT = t
+	}
+	for ci := 0; ci < nconn && !wide && !drift; ci++ {
 		ndir := 1 + c.Weighted(2, 3)
 		incs := 1
 		if cfg.Reopen && c.Chance(250) {
